@@ -292,3 +292,6 @@ fn verif_enum_header_validation() {
 mod verif_blob_roundtrip {
     include!(concat!(env!("LUMINA_VERIF_DIR"), "/native/types/blob_roundtrip.rs"));
 }
+mod verif_ids {
+    include!(concat!(env!("LUMINA_VERIF_DIR"), "/native/types/ids.rs"));
+}
